@@ -22,6 +22,7 @@ const (
 	KBegin    CallKind = "begin"
 	KExec     CallKind = "exec"
 	KQuery    CallKind = "query"
+	KRowsDone CallKind = "rows-done" // the result set of a query has been read and closed (after only)
 	KCommit   CallKind = "commit"
 	KRollback CallKind = "rollback"
 )
@@ -33,7 +34,7 @@ type DrvHook func(ctx context.Context, kind CallKind, query string, after bool) 
 
 var (
 	hookMu   sync.RWMutex
-	drvHook  DrvHook            // process-wide hook (single-Env commands)
+	drvHook  DrvHook                // process-wide hook (single-Env commands)
 	drvHooks = map[string]DrvHook{} // per-database hooks, keyed by DSN
 )
 
@@ -142,8 +143,35 @@ func (c *wConn) QueryContext(ctx context.Context, q string, args []driver.NamedV
 	r, err := c.inner.QueryContext(ctx, q, args)
 	if err == nil {
 		_ = callHookFor(c.dsn, ctx, KQuery, q, true)
+		r = wrapRows(c.dsn, ctx, q, r)
 	}
 	return r, err
+}
+
+// wRows reports the end of a result set (SQLite steps a query lazily: the rows are only
+// read while the caller iterates, after QueryContext has returned). Only installed while a
+// per-database hook is set.
+type wRows struct {
+	driver.Rows
+	dsn string
+	ctx context.Context
+	q   string
+}
+
+func (r *wRows) Close() error {
+	err := r.Rows.Close()
+	_ = callHookFor(r.dsn, r.ctx, KRowsDone, r.q, true)
+	return err
+}
+
+func wrapRows(dsn string, ctx context.Context, q string, r driver.Rows) driver.Rows {
+	hookMu.RLock()
+	h := drvHooks[dsn]
+	hookMu.RUnlock()
+	if h == nil || r == nil {
+		return r
+	}
+	return &wRows{Rows: r, dsn: dsn, ctx: ctx, q: q}
 }
 
 type wStmt struct {
@@ -177,6 +205,7 @@ func (s *wStmt) QueryContext(ctx context.Context, args []driver.NamedValue) (dri
 	r, err := s.inner.QueryContext(ctx, args)
 	if err == nil {
 		_ = callHookFor(s.dsn, ctx, KQuery, s.q, true)
+		r = wrapRows(s.dsn, ctx, s.q, r)
 	}
 	return r, err
 }
